@@ -109,6 +109,10 @@ fn has_cycle(vs: &[usize], es: &[(usize, usize)]) -> bool {
 }
 
 fn alg_case(kind: &str, vs: Vec<usize>, es: Vec<(usize, usize)>, r: usize, mut tags: Vec<String>) -> Case {
+    // minimisation protocol (`--keep p0,p1,..`): the graph was generated exactly as usual; its edges (in insertion
+    // order) are the droppable elements -- vertices and root stay
+    let nelems = es.len();
+    let es: Vec<(usize, usize)> = es.into_iter().enumerate().filter(|(i, _)| kept(*i)).map(|(_, e)| e).collect();
     let g = build(&vs, &es);
     let run = run_alg(&g, r);
     let reach = reachable_set(&vs, &es, r);
@@ -124,11 +128,11 @@ fn alg_case(kind: &str, vs: Vec<usize>, es: Vec<(usize, usize)>, r: usize, mut t
     let input = format!("vs={:?} es={:?} root={}", vs, es, r);
     Case {
         coq: format!("(KAlg {} {} {}\n   {})%N", nl(&vs), el(&es), r, run.coq),
-        descr: format!("graph {}", input),
+        descr: match keep_arg() { Some(k) => format!("[edges kept: {} of {}] graph {}", k, nelems, input), None => format!("graph {}", input) },
         tags,
         nontrivial: unreach || cyc || vs.len() >= 4,
         key: input,
-    }
+    }.with_elements(nelems)
 }
 
 fn exhaustive_case(idx: u64) -> Case {
@@ -314,6 +318,7 @@ fn hist_case(r: &mut Rng) -> Case {
     let mut descr = vec![];
     let mut fails = 0;
     let mut rich_removals = 0;
+    let mut recs: Vec<HOp> = vec![]; // the concrete operations, for the minimisation protocol (hist_replay)
     for step in 0..nops {
         let tag = step as u64 + 1;
         let k = r.below(100);
@@ -324,14 +329,17 @@ fn hist_case(r: &mut Rng) -> Case {
         if k < 25 {
             let i = *r.pick(&pool);
             opc = format!("OInsV {} {}", i, tag); opd = format!("+v{}", i);
+            recs.push(HOp::InsV(i, tag));
             res = observe(|| g.insert_vertex(TV { index: i, tag }));
         } else if k < 65 {
             let h = *r.pick(&pool); let tl = *r.pick(&pool);
             opc = format!("OInsE {} {} {}", h, tl, tag); opd = format!("+e{}>{}", h, tl);
+            recs.push(HOp::InsE(h, tl, tag));
             res = observe(|| g.insert_edge(TE { head: h, tail: tl, tag }));
         } else if k < 80 {
             let i = *r.pick(&pool);
             opc = format!("ORemV {}", i); opd = format!("-v{}", i);
+            recs.push(HOp::RemV(i));
             let deg = g.edges_out(i).map(|v| v.len()).unwrap_or(0) + g.edges_in(i).map(|v| v.len()).unwrap_or(0);
             if deg > 0 { rich_removals += 1; }
             res = observe(|| g.remove_vertex(i));
@@ -340,6 +348,7 @@ fn hist_case(r: &mut Rng) -> Case {
             let existing: Vec<(usize, usize)> = g.edges().iter().map(|e| (e.head, e.tail)).collect();
             let (h, tl) = if !existing.is_empty() && r.chance(3, 4) { *r.pick(&existing) } else { (*r.pick(&pool), *r.pick(&pool)) };
             opc = format!("ORemE {} {}", h, tl); opd = format!("-e{}>{}", h, tl);
+            recs.push(HOp::RemE(h, tl));
             res = observe(|| g.remove_edge(h, tl));
         }
         if res.kind() != "ok" { fails += 1; }
@@ -348,6 +357,7 @@ fn hist_case(r: &mut Rng) -> Case {
         descr.push(format!("{}:{}", opd, res.kind()));
         obs.push(format!("({}, {})", res.coq(|_| "tt".to_string()), w.coq(|s| s.clone())));
     }
+    if keep().is_some() { return hist_replay(pool, t, recs); }
     t.push("kind:history".into());
     t.push(format!("ops:{}", nops / 10 * 10));
     t.push(format!("failing-ops:{}", if fails == 0 { "0" } else if fails < 5 { "1-4" } else { "5+" }));
@@ -358,7 +368,60 @@ fn hist_case(r: &mut Rng) -> Case {
         tags: t,
         nontrivial: fails > 0 || rich_removals > 0,
         key: format!("{:?} {:?}", pool, ops),
+    }.with_elements(nops)
+}
+
+/// minimisation protocol (`--keep p0,p1,..`).  Generation of a history looks at the graph built so far (removals
+/// pick an existing edge), so `hist_case` first runs the whole history exactly as usual and records the concrete
+/// operations (payload tags included); the kept ones are then run again here, from an empty graph, and observed.
+/// `--keep all` must reproduce the case of the normal run.
+#[derive(Clone)]
+enum HOp { InsV(usize, u64), InsE(usize, usize, u64), RemV(usize), RemE(usize, usize) }
+fn hist_replay(pool: Vec<usize>, mut t: Vec<String>, recs: Vec<HOp>) -> Case {
+    let nelems = recs.len();
+    let mut g = TG::new();
+    let (mut ops, mut obs, mut descr) = (vec![], vec![], vec![]);
+    let (mut fails, mut rich_removals) = (0, 0);
+    for op in recs.into_iter().enumerate().filter(|(i, _)| kept(*i)).map(|(_, o)| o) {
+        let (opc, opd): (String, String);
+        let res: Obs<()>;
+        match op {
+            HOp::InsV(i, tag) => {
+                opc = format!("OInsV {} {}", i, tag); opd = format!("+v{}", i);
+                res = observe(|| g.insert_vertex(TV { index: i, tag }));
+            }
+            HOp::InsE(h, tl, tag) => {
+                opc = format!("OInsE {} {} {}", h, tl, tag); opd = format!("+e{}>{}", h, tl);
+                res = observe(|| g.insert_edge(TE { head: h, tail: tl, tag }));
+            }
+            HOp::RemV(i) => {
+                opc = format!("ORemV {}", i); opd = format!("-v{}", i);
+                let deg = g.edges_out(i).map(|v| v.len()).unwrap_or(0) + g.edges_in(i).map(|v| v.len()).unwrap_or(0);
+                if deg > 0 { rich_removals += 1; }
+                res = observe(|| g.remove_vertex(i));
+            }
+            HOp::RemE(h, tl) => {
+                opc = format!("ORemE {} {}", h, tl); opd = format!("-e{}>{}", h, tl);
+                res = observe(|| g.remove_edge(h, tl));
+            }
+        }
+        if res.kind() != "ok" { fails += 1; }
+        let w = observe(|| views(&g, &pool));
+        ops.push(opc);
+        descr.push(format!("{}:{}", opd, res.kind()));
+        obs.push(format!("({}, {})", res.coq(|_| "tt".to_string()), w.coq(|s| s.clone())));
     }
+    t.push("kind:history".into());
+    t.push(format!("ops:{}", ops.len() / 10 * 10));
+    t.push(format!("failing-ops:{}", if fails == 0 { "0" } else if fails < 5 { "1-4" } else { "5+" }));
+    t.push(format!("removals-with-incident-edges:{}", rich_removals.min(3)));
+    Case {
+        coq: format!("(KHist {} {}\n   {})%N", nl(&pool), coq_list(ops.iter().cloned()), coq_list(obs.iter().cloned())),
+        descr: format!("[operations kept: {} of {}] history pool={:?} {}", keep_arg().unwrap_or_default(), nelems, pool, descr.join(" ")),
+        tags: t,
+        nontrivial: fails > 0 || rich_removals > 0,
+        key: format!("{:?} {:?}", pool, ops),
+    }.with_elements(nelems)
 }
 
 /// Position in the case list -> logical case index.  Three of every four positions are taken by the
